@@ -193,6 +193,44 @@ def collectByOffset (ps : List Entry) (limit : Nat) (rev : Bool) (after : UInt64
          | .ok rest => .ok (acc ++ rest))
       | _ => .ok acc
 
+/-! ### What the records reserve (observed through the hold module) -/
+
+def usdDenom : Bytes := [117, 115, 100]
+
+/-- what the exchange module has reserved for account `a` according to its records (markets without
+fees): an ask reserves its assets, a bid its price, a payment its source amount, a commitment its
+amount (x/exchange/spec/01_concepts.md, "Holds") -/
+def reservedOf (s : Store) (a : Bytes) : List (Bytes × Nat) :=
+  (orderRecords s).filterMap (fun o =>
+    if o.owner = a then some (if o.isBid then (o.priceDenom, o.priceAmt) else (o.assetDenom, o.assetAmt))
+    else none) ++
+  (paymentRecords s).filterMap (fun p => if p.source = a then some (usdDenom, p.srcAmt) else none) ++
+  (commitmentRecords s).filterMap (fun c => if c.2.1 = a then some (usdDenom, c.2.2) else none)
+
+def addCoin (d : Bytes) (n : Nat) : List (Bytes × Nat) → List (Bytes × Nat)
+  | [] => [(d, n)]
+  | (d', m) :: r =>
+    if d = d' then (d', m + n) :: r
+    else if bytesLt d d' then (d, n) :: (d', m) :: r
+    else (d', m) :: addCoin d n r
+
+/-- the reserved amounts per denom, sorted by denom, zero amounts dropped -/
+def specHolds (s : Store) (a : Bytes) : List (Bytes × Nat) :=
+  ((reservedOf s a).foldl (fun acc c => addCoin c.1 c.2 acc) []).filter (fun c => c.2 ≠ 0)
+
+/-! ### What an accepted creation may touch -/
+
+/-- the order and payment records of a store, as entries -/
+def recordEntries (s : Store) : List Entry :=
+  s.filter fun e => match e.1, e.2 with | 2 :: _, .order _ => true | 112 :: _, .payment _ => true | _, _ => false
+
+/-- `none` = `new` is `old` plus exactly one order / payment record (every old record is still there,
+unchanged); otherwise the clause that is broken. -/
+def checkCreated (old new : Store) : Option String :=
+  if (recordEntries old).any (fun e => new.get e.1 ≠ some e.2) then some "create_overwrote_record"
+  else if (recordEntries new).length ≠ (recordEntries old).length + 1 then some "create_not_one_record"
+  else none
+
 /-! ### Executable invariant check (run on the implementation's raw dump) -/
 
 def familyName : Nat → String
